@@ -15,7 +15,8 @@ from ..world import World
 
 ID = "C17"
 SHAPES = ["list", "generator-eager", "generator-lazy", "iterator-close", "iterator-close-lazy", "raise-before-start",
-          "raise-after-start", "raise-mid-iteration", "empty-chunks", "no-start", "no-start-closeable", "empty-iterable"]
+          "raise-after-start", "raise-mid-iteration", "empty-chunks", "no-start", "no-start-closeable", "empty-iterable",
+          "iterable-close"]
 PATHS = [b"/", b"/a/b", b"/caf%C3%A9", b"/%E2%82%AC/x%20y", b"/a%2Fb", b"/api", b"/api/v1/items", b"/api/caf%C3%A9",
          b"/apix", b"/other"]
 ROOTS = ["", "/api", "/api/v1"]
@@ -83,6 +84,21 @@ class WSGIApp:
             def close(self) -> None:
                 call.closes += 1
 
+        class Container:
+            """An iterable (not an iterator): __iter__ hands out a different object; close() is the container's."""
+
+            def __init__(self) -> None:
+                call.has_close = True
+
+            def __iter__(self) -> Any:
+                return gen(False)
+
+            def close(self) -> None:
+                call.closes += 1
+
+        if shape == "iterable-close":
+            start_response(status, headers)
+            return Container()
         if shape == "list":
             start_response(status, headers)
             call.finished_iteration = True
